@@ -7,13 +7,19 @@ ops (ids/gens decimal; tag = <obj>:<gen>):
   reset                      -> ok            (fresh queue, default capacities 64 / 40960)
   new <o>                    -> ok
   send <o> <sync01>          -> ok | closed | blocked
-  unblock <o>:<g> <sync01>   -> ok | closed
+  unblock <o>:<g> <sync01> [<viaDone01>]  -> ok | closed
   recv <high01>              -> <o>:<g>
   reply <o>:<g>              -> ok
-  wait <o>                   -> <o>:<g> | closed
+  wait <o> [<viaDone01>]     -> <o>:<g> | closed
   timeout <o>                -> timeout
   free <o> <disciplined01>   -> ok
   closetopic | closequeue    -> ok
+  subreq                     -> ok            (requester's client subscribes a private topic)
+  closeclient                -> ok            (requester's client.Close(), run to completion: closeenter;
+                                               closedone; closefinish with nothing in between)
+  closeenter | closedone | closefinish -> ok | blocked | panic   (the atomic steps, for overlapping calls)
+`wait`/`unblock` without the branch: the branch is the only enabled one; when both cases of the Go `select`
+are ready the answer is `racy` (state unchanged) — the harness then reports the branch it observed.
 a label that is not enabled in the model answers `not-enabled` (and leaves the state unchanged).
 -/
 
@@ -28,14 +34,18 @@ def label? (ws : List String) : Option Label :=
   match ws with
   | ["new", o] => do pure (.new (← o.toNat?))
   | ["send", o, b] => do pure (.send (← o.toNat?) (← bool? b))
-  | ["unblock", t, b] => do pure (.unblock (← tag? t) (← bool? b))
+  | ["unblock", t, b, v] => do pure (.unblock (← tag? t) (← bool? b) (← bool? v))
   | ["recv", b] => do pure (.recv (← bool? b))
   | ["reply", t] => do pure (.reply (← tag? t))
-  | ["wait", o] => do pure (.wait (← o.toNat?))
+  | ["wait", o, v] => do pure (.wait (← o.toNat?) (← bool? v))
   | ["timeout", o] => do pure (.timeout (← o.toNat?))
   | ["free", o, d] => do pure (.free (← o.toNat?) (← bool? d))
   | ["closetopic"] => some .closeTopic
   | ["closequeue"] => some .closeQueue
+  | ["subreq"] => some .subReq
+  | ["closeenter"] => some .closeEnter
+  | ["closedone"] => some .closeDone
+  | ["closefinish"] => some .closeFinish
   | _ => none
 
 def showOut : Out → String
@@ -43,10 +53,40 @@ def showOut : Out → String
   | .tag t => s!"{t.obj}:{t.gen}"
   | .err e => e
   | .blocked => "blocked"
+  | .panic => "panic"
+
+/-- a label given without its `select` branch: exactly one branch must be enabled. -/
+def either (s : State) (l : Bool → Label) : State × String :=
+  match step s (l false), step s (l true) with
+  | some (s', o), none => (s', showOut o)
+  | none, some (s', o) => (s', showOut o)
+  | some _, some _ => (s, "racy")
+  | none, none => (s, "not-enabled")
+
+/-- `client.Close()` of the requester run to completion. -/
+def closeClient (s : State) : State × String :=
+  match step s .closeEnter with
+  | some (s1, .blocked) =>
+    match step s1 .closeDone with
+    | some (s2, .blocked) =>
+      match step s2 .closeFinish with
+      | some (s3, o) => (s3, showOut o)
+      | none => (s, "not-enabled")
+    | some (s2, o) => (s2, showOut o)
+    | none => (s, "not-enabled")
+  | some (s1, o) => (s1, showOut o)
+  | none => (s, "not-enabled")
 
 def stepLine (s : State) (line : String) : State × String :=
   match words line with
   | ["reset"] => ({}, "ok")
+  | ["closeclient"] => closeClient s
+  | ["wait", o] => match o.toNat? with
+    | some o => either s (fun v => .wait o v)
+    | none => (s, "bad-op")
+  | ["unblock", t, b] => match tag? t, bool? b with
+    | some t, some b => either s (fun v => .unblock t b v)
+    | _, _ => (s, "bad-op")
   | ws =>
     match label? ws with
     | none => (s, "bad-op")
